@@ -227,7 +227,8 @@ func (in *Interp) assertion(c *Term, label string) {
 	neg := in.tb.Not(c)
 	in.res.AssertQueries++
 	var want []*Term
-	if len(st.Violations) < in.cfg.MaxCexPerLabel {
+	wantCex := len(st.Violations) < in.cfg.MaxCexPerLabel
+	if wantCex {
 		want = in.wantTerms()
 	}
 	r, m := in.sol.Check(in.pc, neg, want)
@@ -252,7 +253,10 @@ func (in *Interp) assertion(c *Term, label string) {
 		in.res.addInconclusive(fmt.Sprintf("assert %q: solver unknown (%s)", label, in.sol.lastErr))
 	case Sat:
 		st.Failed++
-		if want != nil && m != nil {
+		if wantCex {
+			if m == nil { // no symbolic input at all (only case-split shapes): the tape is fully concrete
+				m = map[*Term]uint64{}
+			}
 			tape, obs := in.snapshot(m)
 			st.Violations = append(st.Violations, &Violation{Harness: in.res.Name, Label: label, Kind: "assert", Tape: tape, Observes: obs,
 				Path: in.decisionString()})
